@@ -12,7 +12,7 @@ const (
 )
 
 func ruleC13(c *Ctx) {
-	c.Explain("C13 (structural part): must-pass-through + error propagation over go/ssa. Decided: every success path of ValidateBlockHeader / checkBlockTime / verifyBlockSignature / ValidateBlock / checkCoinbaseAmount / checkoutRewardCoinbase / ValidateTx / checkTimeRange / checkDoubleSpend / applySpendUtxo / saveBlock / reorganizeChain passes each named consensus test (a branch reading the stated fields with a failure-only side, or a callee whose error is tested and propagated). Not decided: that each predicate is the right predicate (operator direction, constants), nor liveness (valid blocks are accepted).")
+	c.Explain("C13 (structural part): must-pass-through + error propagation over go/ssa. Decided: every success path of ValidateBlockHeader / checkBlockTime / verifyBlockSignature / ValidateBlock / checkCoinbaseAmount / checkoutRewardCoinbase / ValidateTx / checkTimeRange / checkDoubleSpend / applySpendUtxo / saveBlock / reorganizeChain passes each named consensus test (a branch reading the stated fields with a failure-only side, or a callee whose error is tested and propagated). The passing side of the coinbase reward-count test must establish equality of the two counts. Not decided: that each other predicate is the right predicate (operator direction, constants), nor liveness (valid blocks are accepted).")
 	const R = "mustpass"
 	const G = "guard"
 
@@ -81,6 +81,7 @@ func ruleC13(c *Ctx) {
 
 	crc := c.ScopeFunc(c.Func(pVal, "checkoutRewardCoinbase"))
 	c.RequireGuard(G, crc, "reward count", readsField("protocol/state.Checkpoint", "Rewards"), callsKey("builtin:len"))
+	c.rewardCountExact(G)
 	c.RequireGuard(G, crc, "each reward amount", readsField("protocol/state.Checkpoint", "Rewards"), func(v ssa.Value) bool { _, ok := v.(*ssa.Lookup); return ok })
 
 	// --- transaction
